@@ -336,6 +336,21 @@ def run(chk, tier):
     pd_r = r_arms.get(4)
     bits_r = sorted({H.int_lit(H.peel(x)[4]) for x in H.walk(pd_r) if H.kind(H.peel(x)) == "bin" and H.peel(x)[2] == "BitAnd" and H.int_lit(H.peel(x)[4]) is not None}) if pd_r is not None else []
     chk.expect(bits_w == [1, 2] and bits_r == [1, 2], "pdu-tables", "P-DATA", "message-control-header-bits", "0x01 command, 0x02 last (both sides)", {"writer": bits_w, "reader": bits_r})
+    # ... and each reader test is "bit set": (header & m) > 0 / != 0 / == m, with the set branch meaning Command / last; the writer sets
+    # bit 1 under `Command` and bit 2 under `is_last`
+    tests = []
+    for x in H.walk(pd_r) if pd_r is not None else []:
+        if H.kind(x) == "bin" and x[2] in ("Gt", "Ge", "Lt", "Le", "Eq", "Ne"):
+            l = H.peel(x[3])
+            if H.kind(l) == "bin" and l[2] == "BitAnd" and H.int_lit(l[4]) in (1, 2):
+                m_ = H.int_lit(l[4])
+                rhs = H.int_lit(x[4])
+                tests.append((m_, x[2], rhs, (x[2], rhs) in (("Gt", 0), ("Ne", 0), ("Eq", m_), ("Ge", m_))))
+    chk.expect(sorted(t[0] for t in tests) == [1, 2] and all(t[3] for t in tests), "pdu-tables", "P-DATA", "reader-tests-bit-set", "(header & 1) > 0 -> Command; (header & 2) > 0 -> last",
+               [t[:3] for t in tests])
+    cmd_if = [x for x in H.walk(pd_r) if H.kind(x) == "if" and "BitAnd 1" in H.show(x[2], 5)] if pd_r is not None else []
+    chk.expect(len(cmd_if) == 1 and H.show(cmd_if[0][3], 4).endswith("PDataValueType::Command}") or (len(cmd_if) == 1 and "Command" in H.show(cmd_if[0][3], 4) and "Data" in H.show(cmd_if[0][4], 4)),
+               "pdu-tables", "P-DATA", "bit-1-set-means-command", "if (header & 1) set { Command } else { Data }", [H.show(x, 5)[:120] for x in cmd_if])
 
     # ---------- rule 1d: framing — the length-prefixed chunk encloses the whole content of its item
     chk.rule("item-framing", "in every block of the writer module, no byte is written after a write_chunk_uN call at the same level: an item is "
